@@ -2,6 +2,7 @@
 from ..core import rule
 from ..terms import drop_lv
 from .common import *
+from ..core import MissingAnchor
 from .gates import _merkle_atoms
 
 
@@ -752,13 +753,18 @@ def id_between(ctx):
         clears += sorted(bi for bi in lblocks if bi in it.calls and it.calls[bi].dest and it.calls[bi].dest.get('local') == low_local
                          and not it.calls[bi].dest.get('proj'))
         sib_or_copy = set(sib) | set(copies)
+        all_push = [bb for bb, c in it.calls.items() if call_name(c.term) == 'push' and len(c.args) == 2 and head in it.dom[bb]]
+        odd = sorted(set(all_push) - set(sib) - set(copies) - set(b for b, _ in forks))
 
         def reach(asm):
             return Reach(facts, body, Evaluator(facts, classify=classify_w, bool_atom=have, assumption=dict({'n1': True, 'n2': True}, **asm)))
         errs = []
         ev0 = Evaluator(facts, classify=classify_w, bool_atom=have, assumption={'n1': True, 'n2': True, 'req': EQ, 'meq': EQ, 'low': GT, 'high': LT})
         Reach(facts, body, ev0)
-        if not {'req', 'meq'} <= set(ev0.hits):
+        if odd:
+            errs.append('line %d: the walk pushes a node that is neither a copy of the high node, nor (its position, marker), nor '
+                        '(rational_between(..), marker)' % block_line(it, odd[0]))
+        elif not {'req', 'meq'} <= set(ev0.hits):
             errs.append('the walk does not compare the positions and the markers of the two current nodes')
         else:
             for o in (LT, GT):     # positions differ: never copy, never use the sibling shortcut, never drop the low path
@@ -861,3 +867,132 @@ def list_apply(ctx):
         if other:
             errs.append('%s arm: %s' % (v, other[0][1]))
         ctx.check(not errs, v, body, 'seq %s (op.id%s)' % ('gains' if v == 'Insert' else 'loses', ', op.val' if v == 'Insert' else ''), errs[0] if errs else '')
+
+
+@rule('MK-ACCESS', floor=3, **read_attribution({
+    'C15': 'node / children / parents are how a reader walks the history: they must answer from the stored node set, for exactly the '
+           'asked hash',
+}, module='merkle_reg'))
+def mk_access(ctx):
+    """MerkleReg::node(h) = dag[h] or else orphans[h]; children(h) = the children of dag[h] that are themselves in dag, keyed by
+    their hash; parents(h) = every (hash, node) of dag whose children contain h."""
+    facts = ctx.facts
+    # node
+    body = ctx.inherent(MERKLE, 'node')
+    alts = []
+    r = drop_lv(interp(facts, body).ret)
+    ok = False
+    if is_call(r, ('or_else', 'or')) and len(r[2]) == 2:
+        first = drop_lv(r[2][0])
+        second = r[2][1]
+        if second[0] == 'closure':
+            cb = facts.cb(second[1])
+            second = subst(interp(facts, cb).ret, {('upvar', k): v for k, v in enumerate(second[2])}) if cb is not None else second
+        second = drop_lv(second)
+        def look(t, fld):
+            return is_call(t, 'get') and len(t[2]) == 2 and param_path(t[2][0]) == (1, (fld,)) and value_path(drop_lv(t[2][1])) == (2, ())
+        ok = look(first, 'dag') and look(second, 'orphans')
+    ctx.check(ok, 'node', body, 'dag.get(hash) or else orphans.get(hash)', 'MerkleReg::node is %s, expected dag.get(hash).or_else(|| orphans.get(hash))' % fmt(r, 6))
+    # parents: filter over all of dag keeping exactly the nodes whose children contain the asked hash
+    body = ctx.inherent(MERKLE, 'parents')
+    r = drop_lv(interp(facts, body).ret)
+    ok, why = False, 'no filter_map over self.dag feeding the Content'
+    for st in subterms(r):
+        if is_call(st, ('filter_map', 'filter')) and len(st[2]) == 2 and st[2][1][0] == 'closure':
+            base, kind, clo = iter_source(st[2][0])
+            if param_path(base) != (1, ('dag',)) or set(iter_adaptors(st[2][0])) & LOSSY_ADAPTORS:
+                why = 'the scan does not range over all of self.dag'
+                continue
+            cb = facts.cb(st[2][1][1])
+            m = {('upvar', k): v for k, v in enumerate(st[2][1][2])}
+
+            def atom(t, m=m):
+                ts = subst(t, m)
+                if is_call(ts, 'contains') and len(ts[2]) == 2:
+                    c0 = versionless(ts[2][0])
+                    if c0[0] == 'field' and c0[2] == 'children' and value_path(drop_lv(ts[2][1])) == (2, ()):
+                        return 'has'
+                return None
+            vt = closure_value(facts, cb, bool_atom=atom, assumption={'has': True})
+            vf_ = closure_value(facts, cb, bool_atom=atom, assumption={'has': False})
+            keep_t = (vt is True) or (isinstance(vt, tuple) and vt[0] in ('optsome', 'optord') and vt != ('optnone',))
+            keep_f = (vf_ is True) or (isinstance(vf_, tuple) and vf_[0] in ('optsome', 'optord') and vf_ != ('optnone',))
+            drop_f = (vf_ is False) or vf_ == ('optnone',)
+            ok = keep_t and drop_f and not keep_f
+            why = 'a dag node is kept under children.contains(hash)=%s -> %s / %s' % (True, vt, vf_)
+    ctx.check(ok, 'parents', body, 'every dag node whose children contain the hash, and no other', 'MerkleReg::parents: ' + why)
+    # children: the node under the asked hash, its children looked up in dag
+    body = ctx.inherent(MERKLE, 'children')
+    r = drop_lv(inline_option_maps(facts, interp(facts, body).ret))
+    gets = [st for st in subterms(r) if is_call(st, 'get') and len(st[2]) == 2 and param_path(st[2][0]) == (1, ('dag',))]
+    own = [g for g in gets if value_path(drop_lv(g[2][1])) == (2, ())]
+    walk = [st for st in subterms(r) if st[0] == 'call' and call_name(st) in ('filter_map', 'map', 'filter') and st[2]
+            and versionless(iter_source(st[2][0])[0])[0] == 'field' and versionless(iter_source(st[2][0])[0])[2] == 'children'
+            and not (set(iter_adaptors(st[2][0])) & LOSSY_ADAPTORS)]
+    ok = bool(own) and bool(walk)
+    if ok:
+        st = walk[0]
+        ok = False
+        if st[2][1][0] == 'closure':
+            cb = facts.cb(st[2][1][1])
+            cr = drop_lv(inline_option_maps(facts, interp(facts, cb).ret))
+            inner = [g for g in subterms(cr) if is_call(g, 'get') and len(g[2]) == 2 and versionless(g[2][1]) == ('param', 2)]
+            ok = bool(inner)
+    ctx.check(ok, 'children', body, 'children of dag[hash], each looked up in dag under its own hash',
+              'MerkleReg::children is %s, expected the children of dag.get(hash) looked up in dag' % fmt(r, 6))
+
+
+@rule('ID-RATIONAL', {
+    'C14': 'the position of a new identifier node must lie strictly between the neighbouring positions it was given: above the low one, '
+           'below the high one, and between the two when both are given',
+    'C12': 'List allocates every position through this function',
+}, floor=4)
+def id_rational(ctx):
+    """rational_between(low, high): (None, None) -> a constant; (Some l, None) -> l + (positive constant); (None, Some h) ->
+    h - (positive constant); (Some l, Some h) -> (l + h) / 2."""
+    facts = ctx.facts
+    body = facts.body('crdts::identifier::rational_between')
+    if body is None:
+        raise MissingAnchor('identifier::rational_between not found')
+    ctx.analysed.add(body.key)
+
+    def have(t):
+        if t[0] == 'discr' and versionless(t[1]) in (('param', 1), ('param', 2)):
+            return ('map', 'n%d' % versionless(t[1])[1], {True: 1, False: 0})
+        return None
+    L, H = ('field', ('param', 1), 'Some.0'), ('field', ('param', 2), 'Some.0')
+
+    def pos_const(t):
+        t = drop_lv(t)
+        return (t[0] == 'call' and call_name(t) == 'one' and not t[2]) or (t[0] == 'const' and isinstance(t[1], int) and t[1] > 0)
+
+    def two(t):
+        t = drop_lv(t)
+        while t[0] == 'call' and call_name(t) in ('from_integer', 'into', 'from') and len(t[2]) == 1:
+            t = drop_lv(t[2][0])
+        return t[0] == 'const' and t[1] == 2
+
+    def shape(v, lo, hi):
+        v = drop_lv(v)
+        b2 = (v[0] == 'call' and len(v[2]) == 2) and (call_name(v), versionless(v[2][0]), v[2][1])
+        if not lo and not hi:
+            return not any(st[0] == 'param' for st in subterms(v))
+        if lo and not hi:
+            return bool(b2) and b2[0] == 'add' and ((b2[1] == L and pos_const(b2[2])) or (versionless(b2[2]) == L and pos_const(v[2][0])))
+        if hi and not lo:
+            return bool(b2) and b2[0] == 'sub' and b2[1] == H and pos_const(b2[2])
+        if bool(b2) and b2[0] == 'div' and two(b2[2]):
+            s_ = drop_lv(v[2][0])
+            return s_[0] == 'call' and call_name(s_) == 'add' and len(s_[2]) == 2 and {versionless(s_[2][0]), versionless(s_[2][1])} == {L, H}
+        return False
+    for lo in (False, True):
+        for hi in (False, True):
+            evr = Evaluator(facts, bool_atom=have, assumption={'n1': lo, 'n2': hi})
+            v = ret_value(facts, body, evr)
+            it = interp(facts, body)
+            rc = Reach(facts, body, evr)
+            vals = [w.val for (bb, si), w in it.ret_assigns.items() if bb in rc.reachable]
+            name = '%s,%s' % ('low' if lo else '-', 'high' if hi else '-')
+            ok = bool(vals) and all(shape(x, lo, hi) for a in vals for x in phi_alts(drop_lv(a)))
+            ctx.check(ok, name, body, {(False, False): 'a constant', (True, False): 'low + 1', (False, True): 'high - 1', (True, True): '(low + high) / 2'}[(lo, hi)],
+                      'rational_between(%s) returns %s' % (name, [fmt(drop_lv(a), 5) for a in vals][:2]))
